@@ -15,7 +15,7 @@ from hypothesis import strategies as st
 from packaging.version import Version
 
 from .. import harness, specops, versions
-from ..specmodel import ASSIGNMENTS, brief, build, describe, same_set
+from ..specmodel import ASSIGNMENTS, ModelError, brief, build, describe, same_set
 
 PROP = "C14"
 CASE_TIMEOUT = 20.0
@@ -153,7 +153,11 @@ def evaluate(kind, case, acc):
         except specops.LeafError as e:
             acc.discarded[f"leaf-does-not-parse:{e}"] += 1
             return
-        distinct = not same_set(a, b) and not same_set(b, c) and not same_set(a, c)
+        try:
+            distinct = not same_set(a, b) and not same_set(b, c) and not same_set(a, c)
+        except ModelError as e:
+            acc.fail(kind, f"spec:operand-class-{e}", case, expected="Empty/Any/Range/Union", got=[describe(x) for x in (a, b, c)])
+            return
         inter = specops.interacting(a, b) or specops.interacting(b, c) or specops.interacting(a, c)
         acc.label(f"spec:distinct={distinct},interacting={inter}")
         if distinct and inter:
